@@ -99,3 +99,48 @@ Proof.
   - split; [vm_compute; auto|]. split; [vm_compute; auto|]. split; [vm_compute; discriminate|].
     split; [vm_compute; reflexivity|]. split; [vm_compute; reflexivity|]. repeat split; reflexivity.
 Qed.
+
+(* non-vacuity of ack_matches_leader_log_sys: in the run above, the step l9 -> l10 (the duplicate AppEnts delivered to node 2)
+   emits a successful AppEntsResp for index 2 in term 2 while node 1 is leader of term 2 *)
+From BLB Require Import Raft.Completeness.
+
+Definition lm_sched9 : list sys_event :=
+  [(1, EBootstrap [1; 2] 5, 0); (1, ETick, 0); (1, ETick, 0); (2, EDeliver m3, 0); (1, EDeliver m4, 0);
+   (1, EPropose [ex_ent], 0); (2, EDeliver m6, 0); (1, EDeliver m7, 0); (2, EDeliver m8, 1)].
+
+Definition m10 := Eval vm_compute in nthmsg l10 5.
+
+Example ack_nonvacuous :
+  exists σ0 sched σ e σ' m a b,
+    linit σ0 /\ run sys sys_event (lstep (length (sy_nodes σ0)) [1; 2] 5) σ0 sched σ /\
+    lstep (length (sy_nodes σ0)) [1; 2] 5 σ e σ' /\
+    In m (sy_soup σ') /\ ~ In m (sy_soup σ) /\ m_body m = AppEntsResp true 2 0 /\
+    In a (sy_nodes σ') /\ n_id a = m_from m /\ In b (sy_nodes σ') /\ n_role b = Leader /\ p_term (n_p b) = m_term m /\
+    n_id a <> n_id b.
+Proof.
+  exists l0, lm_sched9, l9, (2, EDeliver m8, 0), l10, m10,
+    (nth 1 (sy_nodes l10) (mk_node 1)), (nth 0 (sy_nodes l10) (mk_node 1)).
+  split; [| split; [| split]].
+  - split.
+    + unfold sinit2. split; [| split; [| auto]].
+      * simpl. constructor; [simpl; intros [H | []]; discriminate | constructor; [simpl; tauto | constructor]].
+      * intros s [H | [H | []]]; subst s; (split; [vm_compute; discriminate|]; split; [reflexivity|]);
+          unfold sok, pok; vm_compute; repeat split; auto.
+    + intros s [H | [H | []]]; subst s; vm_compute; auto.
+  - change (length (sy_nodes l0)) with 2%nat. unfold lm_sched9.
+    apply run_cons with (s1 := l1); [lstep_plain; repeat split; auto|].
+    apply run_cons with (s1 := l2); [lstep_plain|].
+    apply run_cons with (s1 := l3); [lstep_plain|].
+    apply run_cons with (s1 := l4); [lstep_deliver|].
+    apply run_cons with (s1 := l5); [lstep_deliver|].
+    apply run_cons with (s1 := l6); [lstep_plain; constructor; [unfold eok; vm_compute; exact Logic.I | constructor]|].
+    apply run_cons with (s1 := l7); [lstep_deliver|].
+    apply run_cons with (s1 := l8); [lstep_deliver|].
+    apply run_cons with (s1 := l9); [lstep_deliver|].
+    apply run_nil.
+  - change (length (sy_nodes l0)) with 2%nat. lstep_deliver.
+  - split; [vm_compute; tauto|]. split.
+    + intro H. vm_compute in H. repeat (destruct H as [H | H]; [discriminate|]). exact H.
+    + split; [reflexivity|]. split; [vm_compute; auto|]. split; [reflexivity|]. split; [vm_compute; auto|].
+      split; [reflexivity|]. split; [reflexivity|]. vm_compute. discriminate.
+Qed.
